@@ -163,6 +163,48 @@ func chainRecE(n int) *zoo.RecE {
 	return cur
 }
 
+// chainRecIP: n nodes, each carrying pointer-to-interface members whose dynamic values rotate
+// through slot-hungry structs, containers, a nested RecIP and scalars.
+func chainRecIP(n, rot int) *zoo.RecIP {
+	hungry := func(i int) zoo.SlotHungry {
+		h := zoo.SlotHungry{S1: []string{"a", "b"}, S2: []string{"c"}, S3: []string{}, I1: []int{i, i + 1, i + 2}, I2: []int{-i},
+			M: map[string][]int{"k": {1, 2}, "l": {3}}, T: "t"}
+		h.N.A = []float64{1.5, 2.5}
+		h.N.B = []float64{float64(i)}
+		return h
+	}
+	var cur *zoo.RecIP
+	for i := 0; i < n; i++ {
+		var a, b interface{}
+		var sh zoo.Shaper
+		switch (i + rot) % 5 {
+		case 0:
+			a, b, sh = hungry(i), []interface{}{hungry(i), i}, hungry(i)
+		case 1:
+			h := hungry(i)
+			a, b, sh = &h, map[string]interface{}{"h": hungry(i)}, &h
+		case 2:
+			a, b, sh = map[string]interface{}{"x": []interface{}{i, "s"}, "y": hungry(i)}, i, zoo.SmallShape{V: i}
+		case 3:
+			a, b, sh = &zoo.RecIP{A: -i, Z: "inner", Ip: func() *interface{} { var x interface{} = hungry(i); return &x }()}, nil, nil
+		default:
+			a, b, sh = i, "s", zoo.SmallShape{V: -i}
+		}
+		nd := &zoo.RecIP{A: i, Ip: &a, R: cur, Z: "z"}
+		if b != nil {
+			nd.Ip2 = &b
+		}
+		if sh != nil {
+			nd.Sp = &sh
+		}
+		if i%3 == 2 && cur != nil {
+			nd.Kid = []*zoo.RecIP{{A: 100 + i, Ip: &a, Sp: nd.Sp}, nil}
+		}
+		cur = nd
+	}
+	return cur
+}
+
 func chainRecC(n int) *zoo.RecC {
 	var cur *zoo.RecC
 	for i := 0; i < n; i++ {
@@ -402,7 +444,8 @@ func init() {
 				// deep acyclic chains through every recursive zoo type, all four interpreters
 				d := depths[k]
 				vals := []any{chainRecA(d, nil), chainRecA(d, &zoo.RecA{I: nestedIface(d % 60)}), chainRecB(d), chainRecE(d), chainRecC(d), nestedIface(d),
-					[]interface{}{chainRecB(d / 2), chainRecE(d / 2)}, map[string]interface{}{"a": chainRecC(d / 2), "b": nestedIface(d / 2)}, dagRec(d), dagRec(d + 1)}
+					[]interface{}{chainRecB(d / 2), chainRecE(d / 2)}, map[string]interface{}{"a": chainRecC(d / 2), "b": nestedIface(d / 2)}, dagRec(d), dagRec(d + 1),
+					chainRecIP(d, 0), chainRecIP(d, 1), []interface{}{chainRecIP(d/2, 2), chainRecIP(minInt(d, 3), 3)}}
 				for i, x := range vals {
 					if !c.Cur(i, fmt.Sprintf("shapes=core\ndeep chain %T depth %d", x, d)) {
 						continue
